@@ -84,3 +84,24 @@ Qed.
 (* the generated trees run exactly like the model's: same result, same final world, for every world *)
 Corollary tie_round_trip_run q limit w : run limit (src_round_trip q) w = run limit (round_trip q) w.
 Proof. apply run_peq, tie_round_trip. Qed.
+
+Lemma tie_store_response q r k refs a b i : peq (src_store_response q r k refs a b i) (store_response q r k refs a b i).
+Proof.
+  unfold src_store_response, store_response. cbv zeta. cbn [p_hdr with_hdr p_body_ok response_of entry_of e_hdr p_status].
+  destruct (normalize_vary _ _) as [m|]; [|apply peq_refl].
+  destruct (p_body_ok r); destruct ((i <? 0) || (Z.of_nat (List.length refs) <=? i)); apply peq_refl.
+Qed.
+
+Lemma tie_serve_from_cache stored f now qualified :
+  peq (src_serve_from_cache stored f now qualified) (Ret (serve_from_cache stored f now qualified)).
+Proof.
+  unfold src_serve_from_cache, serve_from_cache, strip_qualified. cbv zeta.
+  destruct (f_expired f), qualified; cbn [p_hdr with_hdr response_of entry_with_hdr e_hdr]; apply peq_refl.
+Qed.
+
+Lemma tie_handle_stale_while_revalidate q stored k f cc now qualified :
+  peq (src_handle_stale_while_revalidate q stored k f cc now qualified) (handle_stale_while_revalidate q stored k f cc now qualified).
+Proof.
+  unfold src_handle_stale_while_revalidate, handle_stale_while_revalidate, strip_qualified. cbv zeta.
+  destruct qualified; cbn [p_hdr with_hdr response_of entry_with_hdr e_hdr]; apply peq_refl.
+Qed.
